@@ -153,6 +153,10 @@ type hpPair struct {
 	got   []hpField
 	xgot  []hpField
 	first bool
+	// xdead: the witness is retired for the rest of the run.  golang.org/x/net's decoder (the
+	// version /repo requires) refuses a second dynamic table size update at the start of a block
+	// when its table is not empty, although RFC 7541 4.2 explicitly allows (and requires) two.
+	xdead bool
 }
 
 func newPair() *hpPair {
@@ -208,6 +212,7 @@ type hpObs struct {
 	et, dt      hpack.VerifH2libTab
 	panicked    string
 	encodeError string
+	xskip       bool
 }
 
 func (p *hpPair) field(f hpField) (o hpObs) {
@@ -237,6 +242,16 @@ func (p *hpPair) field(f hpField) (o hpObs) {
 	if o.reps, err = wpParse(o.wire); err != nil {
 		o.parseErr = err.Error()
 	}
+	nu := 0
+	for _, r := range o.reps {
+		if r.K == "upd" {
+			nu++
+		}
+	}
+	if nu >= 2 {
+		p.xdead = true
+	}
+	o.xskip = p.xdead
 	o.et, o.dt = p.enc.VerifH2libTable(), p.dec.VerifH2libTable()
 	return
 }
@@ -245,7 +260,7 @@ func (p *hpPair) end() (err, xerr string) {
 	if e := p.dec.Close(); e != nil {
 		err = e.Error()
 	}
-	if e := p.xdec.Close(); e != nil {
+	if e := p.xdec.Close(); e != nil && !p.xdead {
 		xerr = e.Error()
 	}
 	p.first = true
@@ -271,11 +286,14 @@ func layerP(f hpField, o *hpObs, first bool, sig int64, limit uint32) (string, s
 		return "decoder-error", fmt.Sprintf("own decoder rejects the encoder's output %x: %s", o.wire, o.err)
 	case !one(f, o.out):
 		return "roundtrip", fmt.Sprintf("in=%+v decoded=%+v wire=%x", f, o.out, o.wire)
+	case o.xskip:
+		// no witness verdict (see hpPair.xdead)
 	case o.xerr != "":
 		return "witness-error", fmt.Sprintf("golang.org/x/net decoder rejects the encoder's output %x: %s", o.wire, o.xerr)
 	case !one(f, o.xout):
 		return "witness-roundtrip", fmt.Sprintf("in=%+v x/net decoded=%+v wire=%x", f, o.xout, o.wire)
-	case o.parseErr != "":
+	}
+	if o.parseErr != "" {
 		return "wire-parse", fmt.Sprintf("wire %x: %s", o.wire, o.parseErr)
 	}
 	for k, r := range o.reps {
@@ -497,6 +515,7 @@ type recEvent struct {
 	Dallowed uint32    `json:"dallowed"`
 	Arg      uint32    `json:"arg"`
 	Wire     string    `json:"wire,omitempty"`
+	Xskip    bool      `json:"xskip"`
 }
 
 func nz(e []hpEnt) []hpEnt {
@@ -565,7 +584,7 @@ func hpackRecord() {
 					ev.First = p.first
 					p.first = false
 					ev.Reps, ev.Out, ev.Xout = nzr(o.reps), nzf(o.out), nzf(o.xout)
-					ev.Err, ev.Xerr = o.err, o.xerr
+					ev.Err, ev.Xerr, ev.Xskip = o.err, o.xerr, o.xskip
 					if o.panicked != "" {
 						ev.Err = "panic: " + o.panicked
 					} else if o.encodeError != "" {
